@@ -459,7 +459,6 @@ def run(ctx):
     # schedules: (layout, cycles, failing lock attempts, existing file, exceptional exits, atomic)
     jobs = [(tlc_mc_mailbox, (ctx,)),
             (tlc_mc_lockfile, (ctx, "ProcSingle", "BytesSame", 3)),
-            (tlc_mc_lockfile, (ctx, "ProcSingle", "BytesMixed", 2 if quick else 3)),
             # process P = users u1 (terminal 0) + u2 (terminal 1); u3 (, u4) processes of their own
             (tlc_mc_lockfile, (ctx, "ProcMulti", "BytesMulti", 3 if quick else 4)),
             (tlc_schedules, (ctx, "same", 1, 1, False, 2)),
@@ -470,7 +469,8 @@ def run(ctx):
             # a process holding the locks of two terminals while another process wants one of them
             (tlc_schedules, (ctx, "multi", 1, 1, True, 0, True))]
     if not quick:
-        jobs += [(tlc_schedules, (ctx, "same", 2, 1, True, 0)),
+        jobs += [(tlc_mc_lockfile, (ctx, "ProcSingle", "BytesMixed", 3)),
+                 (tlc_schedules, (ctx, "same", 2, 1, True, 0)),
                  (tlc_schedules, (ctx, "multi", 1, 2, True, 1, True)),
                  (tlc_schedules, (ctx, "multi", 1, 1, False, 0, True))]
     with ThreadPoolExecutor(max_workers=8) as ex:
